@@ -200,7 +200,7 @@ func genGateway(r *rand.Rand, tier string) input {
 		case x < 5:
 			in.Ops = append(in.Ops, op{T: t, K: "sleep", Us: vh.Pick(r, 1, 20, 100, 400)})
 		case x < 9:
-			if j > n/3 {
+			if j > n*6/10 {
 				in.Ops = append(in.Ops, op{T: t, K: "drain", Us: vh.Pick(r, 1, 30, 300, 2000, 0)})
 			}
 		default:
@@ -219,7 +219,7 @@ func genPipeline(r *rand.Rand, tier, comp string) input {
 	in.Stoppers = 1 + r.IntN(3)
 	in.Shards = vh.Pick(r, 1, 1, 2, 4)
 	in.Pool = vh.Pick(r, 1, 2, 3)
-	in.Admission = vh.Pick(r, 1, 2, 4, 16, 64)
+	in.Admission = vh.Pick(r, 2, 4, 16, 64, 64)
 	in.Channels = 1 + r.IntN(4)
 	n := 12 + r.IntN(40)
 	if tier == "thorough" {
@@ -244,7 +244,7 @@ func genPipeline(r *rand.Rand, tier, comp string) input {
 		case x < 5:
 			in.Ops = append(in.Ops, op{T: t, K: "sleep", Us: vh.Pick(r, 1, 50, 300, 1000)})
 		default:
-			if j > n/3 {
+			if j > n*6/10 {
 				in.Ops = append(in.Ops, op{T: t, K: "stop", Us: vh.Pick(r, 1, 50, 500, 3000, 0)})
 			}
 		}
